@@ -255,19 +255,9 @@ _CORPUS = None
 def corpus():
     global _CORPUS
     if _CORPUS is None:
-        import ndn.utils as u
-        from mc.ndnenv import Counter32
-        old_t, old_r = u.time, u.randint
-
-        class T:
-            @staticmethod
-            def time():
-                return 1_700_000_000.0
-        u.time, u.randint = T, Counter32(7).randint
-        try:
+        from mc.ndnenv import owned_env as _oe, FixedClock
+        with _oe(clock=FixedClock(), seed=7):
             _CORPUS = build_corpus()
-        finally:
-            u.time, u.randint = old_t, old_r
     return _CORPUS
 
 
